@@ -111,7 +111,7 @@ def build_lib(variant="plain"):
             now = time.time()
             for k, old in enumerate(olds):
                 po = os.path.join(base, old)
-                if k >= 6 or now - os.path.getmtime(po) > 6 * 3600:
+                if (k >= 6 and now - os.path.getmtime(po) > 3600) or now - os.path.getmtime(po) > 6 * 3600:
                     shutil.rmtree(po, ignore_errors=True)
         os.makedirs(d, exist_ok=True)
         cc, flags = VARIANTS[variant]
